@@ -320,7 +320,10 @@ def run(ctx) -> None:
                       f"yielded `{unparse(y2.value.elts[1])}` = `{unparse(lst)[:60]}`: patterns of one entry leak into every file that shares the list", loc=pf2.loc(y2))
         cps2 = prog.function(f"{modname}.compile_patterns")
         rv = [n for n in walk_no_nested(cps2.node) if isinstance(n, ast.Return)]
-        ctx.check("R6", len(rv) == 1 and isinstance(rv[0].value, (ast.ListComp, ast.List)), f"{modname}.compile_patterns builds a new list", f"{modname}.compile_patterns may return a shared list", "", loc=cps2.loc())
+        fresh_list = len(rv) == 1 and (isinstance(rv[0].value, (ast.ListComp, ast.List))
+                                       or (isinstance(rv[0].value, ast.Name) and shapes.loop_as_listcomp(cps2, rv[0].value.id, prog) is not None)
+                                       or (isinstance(rv[0].value, ast.Call) and unparse(rv[0].value.func) in ("list", "sorted")))
+        ctx.check("R6", fresh_list, f"{modname}.compile_patterns builds a new list", f"{modname}.compile_patterns may return a shared list", "", loc=cps2.loc())
 
 
 def all_patterns_found_rule(ctx, eng: str, rule: str) -> None:
